@@ -47,7 +47,7 @@ TIERS = {
     "thorough": {"shards": 32, "cases": 32, "enum_lines": 4, "enum_k": 3, "random_jobs": 200, "timeout": 3400, "parallel": 32},
 }
 FLOORS = {
-    "quick": {"counts": {"jobs_streamed": 480, "transmissions_checked": 3000, "resends_requested": 300,
+    "quick": {"counts": {"resend_requests_followed_through_the_sender": 3000, "jobs_streamed": 480, "transmissions_checked": 3000, "resends_requested": 300,
                          "checksums_verified": 3000, "jobs_with_faults": 300, "enumerated_fault_patterns": 87,
                          "jobs_extended_while_printing": 40,
                          "yields_injected": 50000, "context_switch_observations": 5000}, "keys": 60,
@@ -130,6 +130,12 @@ class MonitoredCore(printcore):
         self.__dict__["_mon"].append(("error", str(error)[-300:], threading.current_thread().name))
         return super().logError(error)
 
+    def _readline(self):
+        line = super()._readline()
+        if line:
+            self.__dict__["_mon"].append(("recv", line.strip(), threading.current_thread().name))
+        return line
+
     def _send(self, command, lineno=0, calcchecksum=False):
         prefix = f"N{lineno} " if calcchecksum else ""
         self.__dict__["_mon"].append(("send", prefix + command, threading.current_thread().name))
@@ -159,6 +165,61 @@ def listener_touched_resendfrom_between(events, prev_n, n):
     return any(e[0] == "resendfrom" and e[2] == "read thread" for e in events[lo:pair[1]])
 
 
+def ignored_resend_requests(events):
+    """'a resend request makes transmission restart from the requested line': for every request the
+    sender RECEIVED for a line it had transmitted before, one of the next two job-line transmissions of
+    the print thread must be that line (one transmission may already be under way when the request comes
+    in), unless a newer request arrives first.  Reported here only when, in addition, the listener never
+    recorded the request (no assignment of the requested number to the resend counter before the next
+    line is received): a request that was recorded and then overwritten by the print thread is the
+    lost-update race, which the skip monitor judges."""
+    out = []
+    sent_before = set()
+    n = len(events)
+    for i, e in enumerate(events):
+        if e[0] == "send" and e[2] == "print thread" and e[1].startswith("N") and "M110" not in e[1]:
+            try:
+                sent_before.add(int(e[1][1:].split(" ")[0]))
+            except ValueError:
+                pass
+            continue
+        if e[0] != "recv":
+            continue
+        low = e[1].lower()
+        if not (low.startswith("resend") or low.startswith("rs")):
+            continue
+        m = re.search(r"(\d+)", e[1])
+        if not m:
+            continue
+        k = int(m.group(1))
+        if k not in sent_before:
+            continue
+        following, recorded, superseded = [], False, False
+        for f in events[i + 1:]:
+            if f[0] == "recv":
+                fl = f[1].lower()
+                if fl.startswith("resend") or fl.startswith("rs"):
+                    superseded = True
+                    break
+                if not following and not recorded:
+                    # the listener has moved on to the next line without recording the request
+                    pass
+            elif f[0] == "resendfrom" and f[2] == "read thread" and f[1] == k:
+                recorded = True
+            elif f[0] == "send" and f[2] == "print thread" and f[1].startswith("N") and "M110" not in f[1]:
+                try:
+                    following.append(int(f[1][1:].split(" ")[0]))
+                except ValueError:
+                    pass
+                if len(following) == 2:
+                    break
+        if superseded or len(following) < 2 or recorded:
+            continue
+        if k not in following:
+            out.append({"requested": k, "next_transmissions": following, "request": e[1]})
+    return out
+
+
 def tokens_conserved(events):
     """Flow-control bookkeeping of the sender: every job-line transmission made by the print thread
     must be licensed by its own clear-to-send event from the listener thread (the flag is a token:
@@ -166,6 +227,8 @@ def tokens_conserved(events):
     tokens = sends = 0
     ok = True
     for kind, what, thread in events:
+        if kind == "recv":
+            continue
         if kind == "clear" and what and thread == "read thread":
             tokens += 1
         elif kind == "send" and thread == "print thread" and "M110" not in what:
@@ -461,6 +524,11 @@ def analyse(ctx, col, case, info, dev, beh, want, verdict):
             if n < len(want) and cmd != want[n]:
                 return fail("transmitted-command-differs-from-job-line", number=n,
                             sent=cmd.decode("latin1"), job=want[n].decode("latin1"))
+    ignored = ignored_resend_requests(info.get("_mon", []))
+    col.count("resend_requests_followed_through_the_sender", sum(1 for e in info.get("_mon", []) if e[0] == "recv"
+              and (e[1].lower().startswith("resend") or e[1].lower().startswith("rs"))))
+    if ignored:
+        return fail("resend-request-ignored-by-the-sender", ignored=ignored[:3], mech="c15:resend-request-ignored")
     unnumbered = [r for r in dev.rx_raw if r.strip() and not NUMBERED.match(r) and not r.startswith(b"G4 P0")]
     if unnumbered:
         return fail("job-transmission-without-line-number-or-checksum", lines=[u.decode("latin1") for u in unnumbered[:5]])
